@@ -182,9 +182,13 @@ def answer (r : Except PyErr Drawing) : String :=
   | .ok d => "ok " ++ showDoc (render d.svg)
   | .error e => "err " ++ e.show
 
-def specAnswer (kv : KV) (doc : PyStr) (e : Expected) : String :=
+def specAnswer (kv : KV) (doc : PyStr) (e : Expected) (geom : List Piece → Bool := fun _ => true) : String :=
   if get kv "expat" == some "0" then "fails xml-parser-rejects " ++ docReport doc e
-  else if docMeets doc e then "holds" else "fails " ++ docReport doc e
+  else if docMeets doc e then
+    (match parseDoc doc with
+     | some ps => if geom ps then "holds" else "fails edge-paths-do-not-join-their-end-nodes"
+     | none => "fails")
+  else "fails " ++ docReport doc e
 
 def handle : Handler
   | "c20.graph", toks => some <| Option.getD (do
@@ -204,10 +208,12 @@ def handle : Handler
   -- the specification evaluated on the implementation's returned string
   | "c20.spec_graph", toks => some <| Option.getD (do
       let kv := kvOf toks
-      some (specAnswer kv (← doc? kv) (expectedGraph (← graphArgs? kv)))) "bad-args"
+      let a ← graphArgs? kv
+      some (specAnswer kv (← doc? kv) (expectedGraph a) (geomGraph a))) "bad-args"
   | "c20.spec_bigraph", toks => some <| Option.getD (do
       let kv := kvOf toks
-      some (specAnswer kv (← doc? kv) (expectedBigraph (← bigraphArgs? kv)))) "bad-args"
+      let a ← bigraphArgs? kv
+      some (specAnswer kv (← doc? kv) (expectedBigraph a) (geomBigraph a))) "bad-args"
   | "c20.spec_dendrogram", toks => some <| Option.getD (do
       let kv := kvOf toks
       some (specAnswer kv (← doc? kv) (expectedDendrogram (← dendroArgs? kv)))) "bad-args"
